@@ -27,6 +27,7 @@ class Frame:
         self.yielded = None
         self.loop_ordinal = 0
         self.declared_locals = set()
+        self.nonlocals = set()    # names declared `nonlocal` in this frame: assignments go to the defining frame
 
     def lookup(self, name):
         f = self
@@ -310,7 +311,7 @@ class Interp:
         self.unsupported("global", st)
 
     def x_Nonlocal(self, st, frame):
-        self.unsupported("nonlocal", st)
+        frame.nonlocals.update(st.names)
 
     def x_Import(self, st, frame):
         for a in st.names:
@@ -377,6 +378,14 @@ class Interp:
 
     def assign(self, t, v, frame):
         if isinstance(t, ast.Name):
+            if t.id in frame.nonlocals:
+                f = frame.parent
+                while f is not None and t.id not in f.locals:
+                    f = f.parent
+                if f is None:
+                    self.unsupported("nonlocal name %s without a binding in an enclosing function" % t.id, t)
+                f.locals[t.id] = v
+                return
             frame.locals[t.id] = v
         elif isinstance(t, (ast.Tuple, ast.List)):
             items = self.iterate(v)
